@@ -350,8 +350,8 @@ def _rows(table, with_value):
     return [tuple(c[i] for c in cols) for i in range(n)]
 
 
-def judge_light(obs, sizes, impl, flat):
-    """expansion + reductions.  to_dict: contig names in genome order, length == contig size, values == dense."""
+def judge_expand(obs, sizes, impl, flat):
+    """expansion.  to_dict: contig names in genome order, length == contig size, values == dense."""
     names = M.chrom_names(len(sizes))
     per = M.split(flat, sizes)
     ok, d = _call(obs, 'to_dict', impl.to_dict)
@@ -368,6 +368,10 @@ def judge_light(obs, sizes, impl, flat):
                 obs.fail('to_dict-values', expected=[p.tolist() for p in per], observed=[a.tolist() for a in arrays])
             elif any(M.kind_of(a) != M.kind_of(flat) for a in arrays):
                 obs.notes.append('dtype_kind_differs')
+
+
+def judge_reduce(obs, sizes, impl, flat):
+    """reductions: sum (method and np.sum) and np.histogram with explicit edges"""
     exp_sum = M.dense_sum(flat)
     ok, s = _call(obs, 'sum', impl.sum)
     if ok and not (np.ndim(s) == 0 and _scalar(s) == exp_sum):
@@ -489,14 +493,19 @@ def judge_str(obs, sizes, impl, flat):
         obs.fail('str-differs', expected=[p.tolist() for p in per], observed=text)
 
 
-LEVELS = {'light': (judge_light,), 'back': (judge_light, judge_back),
-          'full': (judge_light, judge_back, judge_contigs, judge_str)}
+LEVELS = {'light': (judge_expand, judge_reduce), 'back': (judge_expand, judge_reduce, judge_back),
+          'full': (judge_expand, judge_reduce, judge_back, judge_contigs, judge_str)}
 
 
 def judge_state(sizes, impl, flat, level):
+    """If the expansion itself is wrong the state is reported for that clause only: every other observation would
+    repeat the same difference (they are all compared with the same dense array)."""
     obs = Obs()
     for fn in LEVELS[level]:
         fn(obs, sizes, impl, flat)
+        if fn is judge_expand and obs.fails:
+            obs.notes.append('expansion_failed:other_clauses_not_evaluated')
+            break
     return obs
 
 
@@ -556,7 +565,6 @@ def expr_features(sizes, roots, tree, root_models):
         f['breaks'] = 'same' if b0 == b1 else ('nested' if (b0 <= b1 or b1 <= b0) else 'crossing')
     else:
         f['breaks'] = 'n/a'
-    f['operand_depth'] = 'roots' if all(x[0] in ('root', 'scalar') for x in tree[1:]) else 'derived'
     if len(roots) == 1:
         f['root_source'] = roots[0]['source'] + (':' + roots[0]['vkind'] if roots[0]['source'] == 'bedgraph' else '')
     return f
@@ -677,16 +685,22 @@ def run_root_with_menu(res, section, sizes, spec, seen):
     nrec = len(spec.get('records', spec.get('intervals', [])))
     record(res, section, sizes, roots, R0, r, root_models, '%s:n=%d' % (src, min(nrec, 4)))
     res.states += 1
-    if r['impl'] is None:
-        return
+    if r['impl'] is None or r['fails']:
+        return      # a state that failed its own oracle is reported once and never expanded
     if spec['source'] == 'bedgraph' and spec['vkind'] == 'bool':
         return      # a bool-valued bedGraph is checked for value-equal expansion only (DESIGN 4.3)
     menu = MENU_BOOL if spec['source'] == 'mask' else MENU_NUMERIC
     impls = [r['impl']]
+    failed = []
     for tree, level in menu:
+        ts = tree_str(tree)
+        if any(f in ts for f in failed):
+            continue    # built on a sub-expression that already failed
         rr = run_case(sizes, roots, tree, level, root_impls=impls, root_models=root_models)
-        record(res, section, sizes, roots, tree, rr, root_models, 'derived:%s' % tree_str(tree))
+        record(res, section, sizes, roots, tree, rr, root_models, 'derived:%s' % ts)
         res.states += 1
+        if rr['fails']:
+            failed.append(ts)
 
 
 # =========================================================================================== sections
@@ -893,12 +907,14 @@ def run_pairs(res, desc, deadline):
     for group, ops in ((specs, M.ARITH + M.COMPARE), (mask_specs, M.LOGIC)):
         models = [build_root_model(g, s) for s in group]
         impls = []
-        for s in group:
-            try:
-                impls.append(build_root_impl(g, s))
-            except Exception:
-                impls.append(None)      # judged in sections bg / iv
-                res.extra['pairs_root_construction_raises(judged in bg/iv)'] += 1
+        for s, m in zip(group, models):
+            r = run_case(g, [s], R0, 'back', root_models=[m])
+            res.transitions += r['calls']
+            if r['impl'] is None or r['fails']:
+                impls.append(None)      # reported by sections bg / iv (same roots); a failed state is never an operand
+                res.extra['pairs_root_fails_its_own_oracle(reported in bg/iv)'] += 1
+            else:
+                impls.append(r['impl'])
         for i in range(len(group)):
             if i % of != part or impls[i] is None:
                 continue
@@ -959,8 +975,8 @@ def run_deep(res, desc, deadline):
         r = run_case(sizes, roots, ['root', i], 'full', root_models=root_models)
         if part == 0:
             record(res, 'deep', sizes, roots, ['root', i], r, root_models, 'root:%s' % spec['source'])
-        if r['impl'] is None:
-            continue
+        if r['impl'] is None or r['fails']:
+            continue          # reported above (part 0); a failed state is never an operand
         if spec['source'] == 'bedgraph' and spec['vkind'] == 'bool':
             continue          # value-equal expansion only; never an operand
         seen.add(state_key(r['model'], r['impl'], ['root', i]))
